@@ -16,7 +16,7 @@ let hist_q_of_string s = match String.split_on_char '/' s with
   | [a; b] -> { qnum = z_of_string a; qden = hist_pos_of_string b }
   | [a] -> { qnum = z_of_string a; qden = XH }
   | _ -> failwith "q"
-let hist_dval (s : string) : dval =
+let hist_dval (s : string) =
   let rest = String.sub s 1 (String.length s - 1) in
   match s.[0] with
   | 'i' -> DI (z_of_string rest)
@@ -30,7 +30,7 @@ let hist_payload_str = function
   | PS s -> "s" ^ hex s
   | PNull -> "null"
 let hist_payload_of s = dval_payload (hist_dval s)
-let hist_objs_str (o : objs) = String.concat "," (List.map (fun (k, v) -> string_of_n k ^ ":" ^ hist_payload_str v) o)
+let hist_objs_str o = String.concat "," (List.map (fun (k, v) -> string_of_n k ^ ":" ^ hist_payload_str v) o)
 let hist_res_str = function ROk -> "ok" | RErr c -> "err" ^ string_of_z c | RCrash -> "crash" | RMisuse -> "misuse"
 
 (* ---- S-expressions for conditions:  name(arg,arg,...)  *)
@@ -57,35 +57,35 @@ let hist_parse_sx (s : string) : hist_sx =
     end else Sx (name, []) in
   node ()
 let rec hist_nexp = function
-  | Sx ("liti", [Sx (v, [])]) -> NLitI (z_of_string v)
-  | Sx ("litf", [Sx (v, [])]) -> NLitF (hist_q_of_string v)
-  | Sx ("var", [Sx (v, [])]) -> NVar (hist_n_of_string v)
-  | Sx ("add", [a; b]) -> NAdd (hist_nexp a, hist_nexp b)
-  | Sx ("sub", [a; b]) -> NSub (hist_nexp a, hist_nexp b)
-  | Sx ("mul", [a; b]) -> NMul (hist_nexp a, hist_nexp b)
-  | Sx ("neg", [a]) -> NNeg (hist_nexp a)
+  | Sx ("liti", [Sx (v, [])]) -> XNLitI (z_of_string v)
+  | Sx ("litf", [Sx (v, [])]) -> XNLitF (hist_q_of_string v)
+  | Sx ("var", [Sx (v, [])]) -> XNVar (hist_n_of_string v)
+  | Sx ("add", [a; b]) -> XNAdd (hist_nexp a, hist_nexp b)
+  | Sx ("sub", [a; b]) -> XNSub (hist_nexp a, hist_nexp b)
+  | Sx ("mul", [a; b]) -> XNMul (hist_nexp a, hist_nexp b)
+  | Sx ("neg", [a]) -> XNNeg (hist_nexp a)
   | Sx (x, _) -> failwith ("nexp " ^ x)
 let hist_sexp = function
-  | Sx ("slit", [Sx (v, [])]) -> SLit (unhex v)
-  | Sx ("svar", [Sx (v, [])]) -> SVar (hist_n_of_string v)
+  | Sx ("slit", [Sx (v, [])]) -> XSLit (unhex v)
+  | Sx ("svar", [Sx (v, [])]) -> XSVar (hist_n_of_string v)
   | Sx (x, _) -> failwith ("sexp " ^ x)
-let hist_cmp = function "eq" -> CEq | "ne" -> CNe | "lt" -> CLt | "le" -> CLe | "gt" -> CGt | "ge" -> CGe | x -> failwith ("cmp " ^ x)
+let hist_cmp = function "eq" -> XCEq | "ne" -> XCNe | "lt" -> XCLt | "le" -> XCLe | "gt" -> XCGt | "ge" -> XCGe | x -> failwith ("cmp " ^ x)
 let hist_sop = function
-  | "eq" -> SEq | "ne" -> SNe | "contains" -> SContains | "icontains" -> SIContains | "startswith" -> SStartsWith
-  | "istartswith" -> SIStartsWith | "endswith" -> SEndsWith | "iendswith" -> SIEndsWith | "iequals" -> SIEquals
+  | "eq" -> XSEq | "ne" -> XSNe | "contains" -> XSContains | "icontains" -> XSIContains | "startswith" -> XSStartsWith
+  | "istartswith" -> XSIStartsWith | "endswith" -> XSEndsWith | "iendswith" -> XSIEndsWith | "iequals" -> XSIEquals
   | x -> failwith ("sop " ^ x)
 let rec hist_cond = function
-  | Sx ("cmp", [Sx (c, []); a; b]) -> CCmp (hist_cmp c, hist_nexp a, hist_nexp b)
-  | Sx ("str", [Sx (o, []); a; b]) -> CStr (hist_sop o, hist_sexp a, hist_sexp b)
-  | Sx ("truthn", [a]) -> CTruthN (hist_nexp a)
-  | Sx ("truths", [a]) -> CTruthS (hist_sexp a)
-  | Sx ("not", [a]) -> CNot (hist_cond a)
-  | Sx ("and", [a; b]) -> CAnd (hist_cond a, hist_cond b)
-  | Sx ("or", [a; b]) -> COr (hist_cond a, hist_cond b)
+  | Sx ("cmp", [Sx (c, []); a; b]) -> XCCmp (hist_cmp c, hist_nexp a, hist_nexp b)
+  | Sx ("str", [Sx (o, []); a; b]) -> XCStr (hist_sop o, hist_sexp a, hist_sexp b)
+  | Sx ("truthn", [a]) -> XCTruthN (hist_nexp a)
+  | Sx ("truths", [a]) -> XCTruthS (hist_sexp a)
+  | Sx ("not", [a]) -> XCNot (hist_cond a)
+  | Sx ("and", [a; b]) -> XCAnd (hist_cond a, hist_cond b)
+  | Sx ("or", [a; b]) -> XCOr (hist_cond a, hist_cond b)
   | Sx (x, _) -> failwith ("cond " ^ x)
 
 (* ---- C20:  c20 <op> <op> ... | <cond> <cond> ... *)
-let hist_c20_op (s : string) : op =
+let hist_c20_op (s : string) =
   match String.split_on_char ':' s with
   | ["cd"; x; v] -> OCDef (hist_n_of_string x, hist_dval v)
   | ["gr"] -> OGetRules
@@ -121,29 +121,29 @@ let hist_kind_of = function 'I' -> KImport | 'D' -> KImported | 'C' -> KLog | 'T
                           | 'R' -> KRule | 'F' -> KFinished | _ -> failwith "kind"
 let hist_kind_chr = function KImport -> "I" | KImported -> "D" | KLog -> "C" | KTooMany -> "T" | KSlow -> "S"
                            | KRule -> "R" | KFinished -> "F"
-let hist_msgs_of (s : string) : msg list =
+let hist_msgs_of (s : string) =
   if s = "-" then [] else
   List.map (fun t -> (hist_kind_of t.[0], hist_n_of_string (String.sub t 1 (String.length t - 1)))) (String.split_on_char ',' s)
-let hist_msgs_str (l : msg list) =
+let hist_msgs_str l =
   if l = [] then "-" else String.concat "," (List.map (fun (k, p) -> hist_kind_chr k ^ string_of_n p) l)
 let hist_nl (l : n list) = String.concat "_" (List.map string_of_n l)
-let hist_residue_str (r : residue) =
+let hist_residue_str r =
   "m" ^ hist_nl r.r_matches ^ "u" ^ hist_nl r.r_unconfirmed ^ "d" ^ hist_nl r.r_disabled ^ "g" ^ hist_nl r.r_rule_flags
   ^ "n" ^ hist_nl r.r_ns_unsat
-let hist_key flags timeout (i : input) (o : objs) ep (r : residue) =
+let hist_key flags timeout i o ep r =
   Printf.sprintf "f%s.t%s.i%s.e%s.o%s.r%s" (string_of_n flags) (string_of_n timeout) (string_of_n i.in_id)
     (hist_str_optn ep) (hist_objs_str o) (hist_residue_str r)
 let hist_kv (s : string) = match String.index_opt s '=' with
   | Some k -> (String.sub s 0 k, String.sub s (k + 1) (String.length s - k - 1))
   | None -> failwith ("kv " ^ s)
-let hist_script (s : string) : script =
+let hist_script (s : string) =
   if s = "-" then [] else
   List.map (fun t -> match String.split_on_char '=' t with
     | [k; "a"] -> (hist_nat_of_int (int_of_string k), AnsAbort)
     | [k; "e"] -> (hist_nat_of_int (int_of_string k), AnsError)
     | _ -> failwith "script") (String.split_on_char ',' s)
 let hist_optnat s = if s = "-" then None else Some (hist_nat_of_int (int_of_string s))
-let hist_state_str (s : sstate) =
+let hist_state_str s =
   let b l = if l = [] then "0" else "1" in
   Printf.sprintf "alive=%d ep=%s fs=%s fl=%s to=%s nb=%d d=%s%s%s%s%s%s objs=%s pool=%d susp=%d leaked=%d live=%d"
     (if s.st_alive then 1 else 0) (hist_str_optn s.st_ep) (hist_str_optn s.st_fsize) (string_of_n s.st_flags)
@@ -161,7 +161,7 @@ let () = register "c10" (fun args ->
   match hist_split_on "|" args with
   | [("mod" :: mods); ("obj" :: objl); ("in" :: ins); ("or" :: ors); ("ops" :: ops)] ->
       let mods = List.map hist_n_of_string mods in
-      let o0 : objs = List.map (fun kv -> let (k, v) = hist_kv kv in (hist_n_of_string k, hist_payload_of v)) objl in
+      let o0 = List.map (fun kv -> let (k, v) = hist_kv kv in (hist_n_of_string k, hist_payload_of v)) objl in
       let inputs = List.map (fun kv ->
         let (k, v) = hist_kv kv in
         match String.split_on_char '/' v with
@@ -180,7 +180,7 @@ let () = register "c10" (fun args ->
         let k = hist_key flags timeout i o ep r in
         match Hashtbl.find_opt table k with Some n -> n | None -> raise (Hist_need k) in
       let inp k = List.assoc k inputs in
-      let parse_op (s : string) : op0 =
+      let parse_op (s : string) =
         match String.split_on_char ':' s with
         | ["scan"; i; sc; nr] -> Scan (inp i, hist_script sc, hist_optnat nr)
         | ["resume"; nr] -> Resume (hist_optnat nr)
